@@ -15,8 +15,8 @@ from ..monitor import bump, install, violation
 PROP = "C19"
 ANCHORS = ['dep_logic.specifiers.generic:GenericSpecifier.__and__', 'dep_logic.specifiers.generic:GenericSpecifier.__or__', 'dep_logic.specifiers.generic:GenericSpecifier.__invert__', 'dep_logic.specifiers.generic:GenericSpecifier.__contains__']
 RULE = ("Exhaustive: all ordered pairs of (operator, literal) with operators ==, !=, in, not in and literals from "
-        "{'', a, b, ab, ba, abc, bc, linux, linux2, lin, win32, x} (closed under equal / substring / superstring / "
-        "disjoint / empty), for & and |, plus ~ of every specifier; the same pairs again through parse_marker on "
+        "{'', a, b, ab, ba, abc, bc, linux, linux2, lin, win32, x, 1.0, 1.0.0, 1, 10.0, 9.0, 1.*} (closed under equal / "
+        "substring / superstring / disjoint / empty, plus version-looking spelling twins), for & and |, plus ~ of every specifier; the same pairs again through parse_marker on "
         "'v op lit and/or v op lit' so that the calls come from the marker layer. One evaluation = one candidate "
         "string decided. Non-trivial/distinct: (operation, op1, lit1, op2, lit2) whose operands differ.")
 ASSUMPTIONS = [
@@ -30,7 +30,10 @@ MIN_EVENTS = {"GenericSpecifier.__and__": 1000, "GenericSpecifier.__or__": 1000,
 MIN_SHAPES = {"and:returned": 100, "or:returned": 100, "and:NotImplementedError": 50, "or:NotImplementedError": 50}
 SHARDS = {"quick": 1, "thorough": 2}
 OPS = ["==", "!=", "in", "not in"]
-LITS = ["", "a", "b", "ab", "ba", "abc", "bc", "linux", "linux2", "lin", "win32", "x"]
+LITS = ["", "a", "b", "ab", "ba", "abc", "bc", "linux", "linux2", "lin", "win32", "x",
+        # literals that look like versions: different strings that are the same PEP 440 version, and
+        # strings whose lexicographic and version order differ - string atoms must stay string atoms
+        "1.0", "1.0.0", "1", "10.0", "9.0", "1.*"]
 FOREIGN = "§zz"
 
 
@@ -128,7 +131,7 @@ def run(ctx):
         ctx.sample({"a": '!= "a"', "b": 'not in "ab"', "or": repr(G("!=", "a") | G("not in", "ab"))})
     # the same pairs as issued by the marker layer
     before = sum(ctx.shapes[k] for k in ("and:returned", "or:returned", "and:NotImplementedError", "or:NotImplementedError"))
-    lits = LITS if ctx.tier == "thorough" else LITS[:8]
+    lits = LITS if ctx.tier == "thorough" else LITS[:6] + LITS[12:15]
     for (o1, l1), (o2, l2) in itertools.product([(o, l) for o in OPS for l in lits], repeat=2):
         for glue in ("and", "or"):
             text = f'sys_platform {o1} "{l1}" {glue} sys_platform {o2} "{l2}"'
